@@ -40,6 +40,58 @@ fn absence_soak() -> Option<([u32; 5], String)> {
     bad
 }
 
+/// a five-card hand whose OR of rank bits is `pattern` (2..=5 bits below 2^13): extra slots repeat the lowest rank
+fn hand_of_pattern(pattern: u32) -> Option<[u32; 5]> {
+    let ranks: Vec<u32> = (0..13).filter(|r| pattern >> r & 1 == 1).collect();
+    if pattern >> 13 != 0 || ranks.len() < 2 || ranks.len() > 5 {
+        return None;
+    }
+    let mut ws = [0u32; 5];
+    let extra = 5 - ranks.len();
+    for i in 0..=extra {
+        ws[i] = card::word(ranks[0], i as u32);
+    }
+    for (j, r) in ranks.iter().enumerate().skip(1) {
+        ws[extra + j] = card::word(*r, (j as u32 + 1) % 4);
+    }
+    Some(ws)
+}
+
+const EXACT_COUNTS: [u64; 6] = [255, 256, 257, 65_535, 65_536, 65_537];
+/// codes of the exact-count children: 6 counts x 13 bit positions x plus/minus x direction
+const EXACT_CODES: usize = 6 * 13 * 2 * 2;
+
+/// Exact-count histories, one fresh process per code: every hand X of the code's family is asked exactly c
+/// times as the first thing that is ever asked about it (c on both sides of 2^8 and 2^16), then one hand whose
+/// rank pattern, read as a number, is X's plus or minus 2^k and whose answer differs (a use counter that carries
+/// into, or borrows from, the field next to it). Deterministic, one thread.
+fn exact_count_family(code: usize) -> (u64, Option<([u32; 5], String)>) {
+    let c = EXACT_COUNTS[code % 6];
+    let k = (code / 6) % 13;
+    let minus = (code / 78) % 2 == 1;
+    let from_straight = (code / 156) % 2 == 1;
+    let straights: Vec<u32> = (0..9).map(|k| 0b11111u32 << k).chain([0b1_0000_0000_1111]).collect();
+    let mut calls = 0u64;
+    for s in &straights {
+        let other = if minus { s.wrapping_sub(1 << k) } else { s.wrapping_add(1 << k) };
+        if hand_of_pattern(other).is_none() || straights.contains(&other) {
+            continue;
+        }
+        let (x, probe) = if from_straight { (*s, other) } else { (other, *s) };
+        let xw = hand_of_pattern(x).unwrap();
+        let pw = hand_of_pattern(probe).unwrap();
+        for _ in 0..c {
+            let h = Five::from(xw);
+            std::hint::black_box((h.is_straight(), h.is_flush(), h.is_straight_flush()));
+        }
+        calls += c + 1;
+        if let Err((cl, m)) = examine(&pw) {
+            return (calls, Some((pw, format!("in a fresh process, after [{}] had been asked {} times in a row: {}: {}", card::render_hand(&xw), c, cl, m))));
+        }
+    }
+    (calls, None)
+}
+
 struct M {
     flush: bool,
     straight: bool,
@@ -138,13 +190,31 @@ impl Acc for A {
 
 pub fn run(run: &mut Run) -> PResult {
     run.rule = "every five-card subset in canonical order plus seeded slot orders (quick 1, thorough 4): is_flush / is_straight / is_straight_flush / is_wheel against definitions computed from the documented card fields, agreement with the category obtained by ranking the same hand, or_rank_bits / and_bits against their definitions, deprecated free functions against the methods. Non-trivial = straights, flushes and the hands with a repeated rank whose distinct ranks span exactly five places (where a span test and a real straight test differ); distinct = distinct subsets".into();
+    if let Some(code) = run.cold {
+        if (3000..5000).contains(&code) {
+            match exact_count_family(code - 3000) {
+                (calls, None) => println!("FRESHRESULT ok {}", calls),
+                (_, Some((w, m))) => println!("FRESHRESULT fail {}", json!({"hand": hand_json(&w), "message": m})),
+            }
+            return Ok(());
+        }
+    }
     super::regress::replay_dir(run, "C13", check_case)?;
     // (runs first: later generators leave whatever the code under test remembers saturated)
-    if !run.is_twin() {
+    if !run.is_twin() && run.cold.is_none() {
         let bad = absence_soak();
         run.generator("absence soak: boundary classes warmed, one unrelated hand asked 2^24 + 2^12 times, then every class", "call-count soak", None, 2 * ((1u64 << 24) + (1 << 12)), 0, "periodic maintenance of whatever remembers earlier answers; two rounds");
         if let Some((w, m)) = bad {
             return run.violation("C13.after_soak", &card::render_hand(&w), hand_json(&w), &m);
+        }
+    }
+    if !run.is_twin() && run.cold.is_none() {
+        let codes: Vec<usize> = (0..EXACT_CODES).map(|c| 3000 + c).collect();
+        let (ran, calls, bad) = run.fresh_children(&codes, false);
+        run.generator("exact-count histories, a fresh process each: a hand asked exactly 2^8-1 .. 2^8+1 / 2^16-1 .. 2^16+1 times, then a hand whose rank pattern is that one +- a power of two", "call-count soak", None, calls, 0, &format!("{} of {} child processes reported; all pairs (straight, non-straight) whose rank patterns differ by a power of two, both directions", ran, EXACT_CODES));
+        if let Some((code, v)) = bad {
+            let sig = v["hand"]["cards"].as_str().unwrap_or("").to_string();
+            return run.violation("C13.after_exact_count", &sig, json!({"cards": v["hand"]["cards"], "words": v["hand"]["words"], "cold_code": code}), v["message"].as_str().unwrap_or(""));
         }
     }
     {
@@ -334,6 +404,15 @@ pub fn run(run: &mut Run) -> PResult {
 }
 
 pub fn check_case(clause: &str, case: &Value) -> Result<(), String> {
+    if clause == "C13.after_exact_count" {
+        // replayed in a fresh process, like the original
+        let code = case["cold_code"].as_u64().unwrap_or(3000) as usize;
+        let run = Run::new("C13", Tier::Quick, 0);
+        return match run.fresh_children(&[code], false).2 {
+            Some((_, v)) => Err(v["message"].as_str().unwrap_or("").to_string()),
+            None => Ok(()),
+        };
+    }
     if clause == "C13.after_soak" {
         // the soak is deterministic on one thread: replayed as a whole
         return match absence_soak() {
